@@ -282,8 +282,15 @@ class WriteHooks:
         return False
 
 
+DUNDERS = ("__getitem__", "__setitem__", "__delitem__", "__contains__", "__iter__", "__len__", "__bool__",
+           "__eq__", "__hash__", "__getattr__", "__getattribute__", "__set_name__", "__call__")
+
+
 class PropertyCounter:
-    """Count invocations of the package's @property getters while installed."""
+    """Count invocations of the package's @property getters — and of the special methods the package
+    defines itself (`__getitem__`, `__eq__`, … : they are called implicitly by subscripts, `==`,
+    iteration, truth tests, which the by-name call graph does not follow) — while installed.
+    Keys: `Class.attr` for properties, `Class.__dunder__` for special methods."""
 
     def __init__(self, package_prefix: str = "nix_manipulator"):
         self.prefix = package_prefix
@@ -298,6 +305,18 @@ class PropertyCounter:
             for v in list(vars(mod).values()):
                 if isinstance(v, type) and (v.__module__ or "").startswith(self.prefix):
                     for attr, p in list(v.__dict__.items()):
+                        if attr in DUNDERS and callable(p) and hasattr(p, "__code__") and not getattr(p, "_c15", False) \
+                                and not p.__code__.co_filename.startswith("<"):
+                            key = f"{v.__name__}.{attr}"
+
+                            def wrapper(*a, _f=p, _k=key, **kw):
+                                calls[_k] = calls.get(_k, 0) + 1
+                                return _f(*a, **kw)
+
+                            wrapper._c15 = True
+                            self._saved.append((v, attr, p))
+                            setattr(v, attr, wrapper)
+                            continue
                         if isinstance(p, property) and p.fget is not None and not getattr(p.fget, "_c15", False):
                             key = f"{v.__name__}.{attr}"
 
